@@ -47,8 +47,19 @@ def gen_verif_main(ws):
     consts = re.findall(r"^(?:pub(?:\([a-z]+\))? )?const [A-Z0-9_]+: [^=;]+ = [^;]*;$", src, re.M)
     if not any("DEFAULT_MAX_DRIFT_RATE_PPB" in c for c in consts):
         raise Undecided("extract", "extraction anchor lost: const DEFAULT_MAX_DRIFT_RATE_PPB")
+    # every other top-level function of main.rs, verbatim (a refactoring may move the conversion into a
+    # helper; under Kani the helper's real body runs, so no contract is needed for it)
+    helpers = []
+    for m in re.finditer(r"^(?:pub(?:\([a-z]+\))? )?fn ([a-z_][a-z0-9_]*)\s*[(<]", src, re.M):
+        if m.group(1) == "main":
+            continue
+        try:
+            st, ob, en = ex.item(src, r"^(?:pub(?:\([a-z]+\))? )?fn %s\s*[(<]" % re.escape(m.group(1)), "fn " + m.group(1))
+            helpers.append("#[allow(dead_code)]\n" + src[st:en])
+        except ex.ExtractError:
+            pass
     tmpl = open(os.path.join(VERIF, "harness/clock-bound-d/verif_main.rs.tmpl")).read()
-    ws.write("clock-bound-d/src/verif_main.rs", tmpl.replace("@@CONST@@", "\n".join("#[allow(dead_code)]\n" + c for c in consts)).replace("@@STATEMENT@@", stmt.rstrip("\n")))
+    ws.write("clock-bound-d/src/verif_main.rs", tmpl.replace("@@CONST@@", "\n".join(["#[allow(dead_code)]\n" + c for c in consts] + helpers)).replace("@@STATEMENT@@", stmt.rstrip("\n")))
     ws.weave_log.append({"file": "clock-bound-d/src/verif_main.rs", "action": "generate",
                          "text": "statement `let max_drift_ppb = ...;` and every top-level `const` item cut verbatim from clock-bound-d/src/main.rs "
                                  "and wrapped as fn verif_ppb(args: Cli) -> Result<u32, String>",
@@ -106,6 +117,19 @@ pub mod verif_pub {
     pub fn reader_cache(r: &ShmReader) -> (u16, (i64, i64, i64, i64, i64, u32, u32, i32)) {
         crate::reader::reader_cache_state(r)
     }
+    /// a reader attached to a harness-owned 72-byte area (never dereferenced when snapshot is stubbed);
+    /// the caller must mem::forget it
+    pub fn reader_over(base: *mut u8) -> ShmReader {
+        crate::reader::reader_for_harness(base)
+    }
+    pub fn record(f: (i64, i64, i64, i64, i64, u32, u32, i32)) -> ClockErrorBound {
+        ClockErrorBound {
+            as_of: libc::timespec { tv_sec: f.0, tv_nsec: f.1 },
+            void_after: libc::timespec { tv_sec: f.2, tv_nsec: f.3 },
+            bound_nsec: f.4, max_drift_ppb: f.5, reserved1: f.6,
+            clock_status: match f.7 { 1 => crate::ClockStatus::Synchronized, 2 => crate::ClockStatus::FreeRunning, _ => crate::ClockStatus::Unknown },
+        }
+    }
 }
 """, why="cfg(kani)-only accessor for cross-crate harness oracles"),
                   Edit("clock-bound-shm/src/reader.rs", None, "append", """
@@ -113,7 +137,20 @@ pub mod verif_pub {
 pub(crate) fn reader_cache_state(r: &ShmReader) -> (u16, (i64, i64, i64, i64, i64, u32, u32, i32)) {
     (r.snapshot_gen, crate::verif_pub::fields(&r.snapshot_ceb))
 }
-""", why="cfg(kani)-only accessor (ShmReader's fields are private to reader.rs)")],
+
+#[cfg(kani)]
+pub(crate) fn reader_for_harness(base: *mut u8) -> ShmReader {
+    ShmReader {
+        _marker: std::marker::PhantomData,
+        _guard: MmapGuard { segment: base.cast(), segsize: 72 },
+        version: unsafe { base.add(12) }.cast(),
+        generation: unsafe { base.add(14) }.cast(),
+        ceb_shm: unsafe { base.add(16) }.cast(),
+        snapshot_ceb: ClockErrorBound::default(),
+        snapshot_gen: 0,
+    }
+}
+""", why="cfg(kani)-only accessor/constructor (ShmReader's fields are private to reader.rs)")],
     },
     "shm_now": {
         "crate": "clock-bound-shm", "features": "writer",
@@ -130,6 +167,11 @@ pub(crate) fn reader_cache_state(r: &ShmReader) -> (u16, (i64, i64, i64, i64, i6
         "gen": __import__("layout_gen").gen_ffi,
         "edits": [child_mod("clock-bound-ffi/src/lib.rs", "verif_ffi")],
     },
+    "ffi_glue": {
+        "crate": "clock-bound-ffi", "features": None,
+        "files": [("clock-bound-ffi/src/verif_ffi_glue.rs", "harness/clock-bound-ffi/verif_ffi_glue.rs")],
+        "edits": [child_mod("clock-bound-ffi/src/lib.rs", "verif_ffi_glue")],
+    },
     "client_conv": {
         "crate": "clock-bound-client", "features": None,
         "files": [("clock-bound-client/src/verif_client.rs", "harness/clock-bound-client/verif_client.rs")],
@@ -139,6 +181,11 @@ pub(crate) fn reader_cache_state(r: &ShmReader) -> (u16, (i64, i64, i64, i64, i6
         "crate": "clock-bound-shm", "features": "writer",
         "files": [("clock-bound-shm/src/verif_header.rs", "harness/clock-bound-shm/verif_header.rs")],
         "edits": [child_mod("clock-bound-shm/src/shm_header.rs", "verif_header")],
+    },
+    "shm_wipe_search": {
+        "crate": "clock-bound-shm", "features": "writer",
+        "files": [("clock-bound-shm/src/verif_search_wipe.rs", "harness/clock-bound-shm/verif_search_wipe.rs")],
+        "edits": [child_mod_cfg("clock-bound-shm/src/writer.rs", "verif_search_wipe", "verif_search")],
     },
     "shm_compute_search": {
         "crate": "clock-bound-shm", "features": "writer",
@@ -240,6 +287,12 @@ SHM_HDR_GRP = {"kind": "kani", "crate": "clock-bound-shm", "units": ["shm_header
 C11_WRITE = sh("c11_write_contract", WR, also=["C11.write.gen_odd_before_copy", "C11.write.gen_odd_after_copy"], timeout=300)
 OPEN_H = sh("c16_open_any_file", RD, replayable=False, timeout=900)
 PROBE_H = sh("c16_usability_probe_agrees_with_client_open", WR, replayable=False, timeout=900)
+WIPE_NATIVE = {"kind": "native", "crate": "clock-bound-shm", "units": ["shm_wipe_search"], "features": "writer", "test": "verif_search_wipe",
+               "bound": "pre-existing file absent or of every length 0..=200 x 4 fill patterns (zeros, 0xff, counter, valid header with short declared size), on the real file system",
+               "obligations": ["C16.wipe.succeeds_whatever_the_file_contained", "C16.wipe.file_is_exactly_72_bytes", "C16.wipe.magic_first", "C16.wipe.declared_size_72",
+                               "C16.wipe.version_0_generation_0", "C16.wipe.record_is_zero", "C16.e2e.new_succeeds_on_any_file",
+                               "C16.e2e.client_can_open_after_first_publication", "C16.e2e.client_reads_back_exactly_the_published_record",
+                               "C16.e2e.recreated_file_is_72_bytes"]}
 POSIX = "harness/clock-bound-shm/posix_model.c"
 A_POSIX = ("POSIX model (harness/clock-bound-shm/posix_model.c, linked with -Z c-ffi): one file of 0..96 bytes that may be missing, a directory, or fail to map; "
            "open/read/mmap/munmap/close/errno behave as the model says; only the first 24 bytes of content are symbolic, the rest reads as 0")
@@ -415,6 +468,7 @@ PROPS = {
         "groups": [dict(SHM_READ_GRP, harnesses=[sh("c03_snapshot_quiescent", RD)]),
                    dict(SHM_READ_GRP, c_lib=POSIX, harnesses=[OPEN_H]),
                    dict(SHM_WRITE_GRP, c_lib=POSIX, harnesses=[PROBE_H]),
+                   WIPE_NATIVE,
                    dict(SHM_WRITE_GRP, harnesses=[C11_WRITE, sh("c04_new_takeover_or_wipe", WR, replayable=False),
                                                   sh("c16_write_then_fresh_snapshot_roundtrip", WR)])],
     },
@@ -428,6 +482,7 @@ PROPS = {
         "groups": [dict(SHM_HDR_GRP, harnesses=[sh("c16_header_is_valid", HD)]),
                    dict(SHM_READ_GRP, c_lib=POSIX, harnesses=[OPEN_H]),
                    dict(SHM_WRITE_GRP, c_lib=POSIX, harnesses=[PROBE_H]),
+                   WIPE_NATIVE,
                    dict(SHM_WRITE_GRP, harnesses=[sh("c16_segment_size", WR), sh("c16_write_then_fresh_snapshot_roundtrip", WR),
                                                   sh("c04_new_takeover_or_wipe", WR, replayable=False)])],
     },
@@ -471,8 +526,9 @@ PROPS = {
         "assumptions": [A["tools"], A["weaver"], A["target"],
                         "spec/layout.json was transcribed by hand from docs/PROTOCOL.md and clockbound.h (one table, both sides checked against it)",
                         "native endianness holds by construction: the record is stored by a plain ptr::write of the repr(C) struct (checked: field bytes re-read with from_ne_bytes)",
-                        "'same interval at the same moment' for two separate client calls is not expressible as a contract: both clients are the same ShmReader::snapshot + ClockErrorBound::now, "
-                        "what differs is the conversion layer, which is proved total and kind/errno preserving; the thin wrappers clockbound_now / ClockBoundClient::now are unverified glue"],
+                        "'same interval at the same moment' for two separate client calls is not expressible as one contract; what is proved instead: both clients' open and now wrappers are thin layers over the "
+                        "SAME three callees (ShmReader::new, ShmReader::snapshot, ClockErrorBound::now, replaced by recorders in these harnesses): open opens once and reads nothing (empty cache), now takes exactly "
+                        "one snapshot and evaluates exactly that record, interval/status/error kind/errno are passed through unchanged on both sides"],
         "trusted": ["spec/layout.json", "tools/layout_gen.py"],
         "groups": [
             {"kind": "kani", "crate": "clock-bound-shm", "units": ["shm_layout"], "modpath": "verif_layout",
@@ -483,8 +539,13 @@ PROPS = {
             {"kind": "kani", "crate": "clock-bound-ffi", "units": ["ffi_layout"], "modpath": "verif_ffi",
              "harnesses": [sh("c17_ffi_layout", "GEN", obligations=None), sh("c17_ffi_status_conversion", "GEN", obligations=None),
                            sh("c14_ffi_error_conversion", "GEN", obligations=None)]},
-            {"kind": "kani", "crate": "clock-bound-client", "units": ["client_conv"], "modpath": "verif_client",
-             "harnesses": [sh("c14_client_error_conversion", "harness/clock-bound-client/verif_client.rs", replayable=False)]},
+            {"kind": "kani", "crate": "clock-bound-client", "units": ["shm_pub", "client_conv"], "modpath": "verif_client",
+             "harnesses": [sh(n, "harness/clock-bound-client/verif_client.rs", replayable=False)
+                           for n in ("c14_client_error_conversion", "c17_client_open_is_thin", "c17_client_now_is_thin")]},
+            {"kind": "kani", "crate": "clock-bound-ffi", "units": ["shm_pub", "ffi_glue"], "modpath": "verif_ffi_glue",
+             "c_lib": "harness/clock-bound-ffi/cstr_model.c",
+             "harnesses": [sh(n, "harness/clock-bound-ffi/verif_ffi_glue.rs", replayable=False)
+                           for n in ("c17_ffi_open_is_thin", "c17_ffi_now_is_thin")]},
             {"kind": "cbmc"},
         ],
     },
